@@ -6,9 +6,12 @@ from fractions import Fraction as Fr
 
 def run(rep, rng, tier, replay=None):
     extra = [replay["chosen"]["case"]] if replay and replay.get("chosen", {}).get("case") else []
+    # corner points: one or two xi coordinates at 1e-3 .. 1e-12 (tiny kappas; condition numbers of L up to the limit the property sets)
+    extra += [SC.cornerize(rng.fork(), SC.gen_sample_case(rng.fork(), emax=7 if tier == "quick" else 8), exps=(4, 5, 6, 7, 8, 9, 10)) for _ in range(60 if tier == "quick" else 300)]
     got = SC.standard_run(rep, rng, tier, "C08", ["l_matrix", "determinant", "u"], 1e-11, n_quick=70, n_thorough=500,
                           nontrivial=lambda c: c["L"] >= 2, extra_cases=extra, emax=7 if tier == "quick" else 8)
     rebase = []
+    nsearch = 0
     for c, fi, m, o, timpl in got:
         n = SC.case_numbers(c)
         if not all(math.isfinite(b2f(v)) and b2f(v) > 0 for v in fi["x"]):
@@ -31,6 +34,30 @@ def run(rep, rng, tier, replay=None):
             tol = 1e-11 * max(1.0, float(kappa))
             if not rel_close(b2f(fi["u"]), float(U), tol):
                 bad.append("u = %r but the spanning-tree sum (%d trees) is %r [kappa=%.3g]" % (b2f(fi["u"]), nT, float(U), float(kappa)))
+        elif kappa is not None and nsearch < 6 and math.isfinite(b2f(m["u"])) and not rel_close(b2f(fi["u"]), b2f(m["u"]), 1e-6):
+            # beyond the condition numbers the property quantifies over the implementation has left the model: walk the tiny xi
+            # coordinates back towards moderate values until kappa(L) is inside the range, and apply the exact oracle there
+            nsearch += 1
+            E_ = len(c["edges"])
+            for t_ in (0.85, 0.7, 0.55, 0.4):
+                c3 = json.loads(json.dumps(c))
+                for i_ in range(1, 2 * E_ - 2, 2):
+                    v_ = b2f(c3["point"][i_])
+                    if v_ < 1e-3:
+                        c3["point"][i_] = f2b(v_ ** t_)
+                o3 = harness("sample", dict(cases=[c3]), timeout=120)["results"][0]
+                f3 = SC.impl_fields(o3["f64"]) if "f64" in o3 else dict(tag="panic")
+                if f3.get("tag") != "ok" or not all(math.isfinite(b2f(v_)) and b2f(v_) > 0 for v_ in f3["x"]):
+                    continue
+                x3 = [Fr(b2f(v_)) for v_ in f3["x"]]
+                k3 = X.cond_estimate(X.l_matrix(x3, n["sig"]))
+                if k3 is None or k3 >= Fr(10) ** 10:
+                    continue
+                U3, nT3 = X.u_by_trees(n["pairs"], x3)
+                if not rel_close(b2f(f3["u"]), float(U3), 1e-11 * max(1.0, float(k3))):
+                    rep.violation("property", "searched from a sample outside the conditioning range: u = %r but the spanning-tree sum (%d trees) is %r [kappa=%.3g]" % (
+                        b2f(f3["u"]), nT3, float(U3), float(k3)), case=c3, failing_input=True, what="U differs from the first Symanzik polynomial")
+                    break
         if bad:
             rep.violation("property", "; ".join(bad[:3]), case=c, failing_input=True, what="U differs from the first Symanzik polynomial")
         rep.sample(dict(family=c["family"], L=L, D=c["D"], u=b2f(fi["u"]), trees=nT, signature=c["signature"]))
